@@ -57,7 +57,8 @@ CONSTS = {"Universe": "<-UniverseV", "Headings": "<-HeadingsV", "LabelDoc": "<-L
 def dest_text(link, written, slugs):
     sp = link["sp"]
     if sp == "label":
-        return "#lab"
+        # (label names are matched case-insensitively: written '(Lab)=', referenced as '#LAB' or '#lab')
+        return "#LAB" if link["text"] == "explicit" else "#lab"
     path = "/".join(written)
     if sp == "abs":
         path = "/" + path
@@ -87,7 +88,7 @@ def doc_text(p, headings, links_lines, labeldoc=LABELDOC):
     hs = headings[name]
     for k, h in enumerate(hs, 1):
         if p == labeldoc and k == len(hs):
-            out += ["(lab)="]
+            out += ["(Lab)="]
         out += [f"## {h}", "", f"body {k}", ""]
         if h == "Sec":
             # a heading of the same title below the anchor depth: it has no slug and takes no part in the numbering
@@ -120,7 +121,10 @@ def build_project(job):
                 line_of[int(m.group(1))] = ln_no
     files["/".join(filedir + ["f.txt"])] = "extra file\n"
     files["index.md"] = "# Index\n\n```{toctree}\n" + "\n".join(pkey(p) for p in proj) + "\n```\n"
-    r = run_project(d, files, {"myst_heading_anchors": 2}, builder="html", resolve=True, keep=False)
+    # (projects with more than five documents are read by two processes every other time: what resolution needs must
+    # survive the merge of the workers' environments)
+    par = 2 if (len(files) > 5 and pid % 2 == 0) else 0
+    r = run_project(d, files, {"myst_heading_anchors": 2}, builder="html", resolve=True, keep=False, parallel=par)
     out = {"ok": r["ok"], "error": r["error"], "links": {}, "files": files}
     if not r["ok"]:
         shutil.rmtree(d, ignore_errors=True)
